@@ -10,7 +10,7 @@ as one empty operand [""] (as in the stream).
 """
 import itertools
 
-from .spec import OPERATORS, REG_FAMILIES, reg_family, split_times
+from .spec import OPERATORS, REG_FAMILIES, reg_family, split_times, split_width_suffix
 
 
 class Oracle:
@@ -27,8 +27,7 @@ class Oracle:
     def _capture_operand(self, name, text, env):
         fam = reg_family(name)
         if fam is not None:
-            base, _, suffix = name.partition(".")
-            suffix = suffix.lower() or None
+            base, suffix = split_width_suffix(name)
             cands = [env[base]] if base in env else list(REG_FAMILIES[fam])
             for k in cands:
                 table = REG_FAMILIES[fam][k]
